@@ -157,6 +157,14 @@ func (p *Program) buildSeams() {
 					note(p.seamField, key, &seam{typ: v.Type()})
 					continue
 				}
+				// the result of a library constructor that always returns one concrete library type behind the interface
+				// (random: util.NewRandom() → defaultRandom{})
+				if call, isCall := v.(*ssa.Call); isCall {
+					if sm := p.callResultSeam(call, ft); sm != nil {
+						note(p.seamField, key, sm)
+						continue
+					}
+				}
 				// a parameter of an internal constructor: what every caller passes
 				if prm, isP := v.(*ssa.Parameter); isP {
 					if sm := p.paramSeam(prm, ft, 0); sm != nil {
@@ -455,6 +463,48 @@ func (p *Program) paramSeam(prm *ssa.Parameter, ft types.Type, depth int) *seam 
 			return nil
 		}
 		res = sm
+	}
+	return res
+}
+
+// callResultSeam: the stored value is what a library function returns, and every return of that function converts a
+// value of one concrete library type to the interface (or returns one function constant).
+func (p *Program) callResultSeam(call *ssa.Call, ft types.Type) *seam {
+	cal := call.Call.StaticCallee()
+	if cal == nil || call.Call.IsInvoke() || !p.InScope[origin(cal)] || cal.Signature.Results().Len() != 1 {
+		return nil
+	}
+	f := origin(cal)
+	var res *seam
+	n := 0
+	for _, b := range f.Blocks {
+		for _, in := range b.Instrs {
+			ret, isRet := in.(*ssa.Return)
+			if !isRet || len(ret.Results) != 1 {
+				continue
+			}
+			n++
+			v := stripConv(ret.Results[0])
+			var sm *seam
+			switch x := v.(type) {
+			case *ssa.Function:
+				if len(x.FreeVars) == 0 {
+					sm = &seam{fn: origin(x)}
+				}
+			}
+			if sm == nil {
+				if _, isIface := ft.Underlying().(*types.Interface); isIface && inRepoConcrete(v.Type()) {
+					sm = &seam{typ: v.Type()}
+				}
+			}
+			if sm == nil || (res != nil && !res.same(sm)) {
+				return nil
+			}
+			res = sm
+		}
+	}
+	if n == 0 {
+		return nil
 	}
 	return res
 }
